@@ -29,17 +29,19 @@ Inductive sexp :=
 | SList (id : nat) (xs : list sexp).
 
 Inductive value :=
-| VInt (z : Z) | VNil | VT | VSym (x : string) | VList (vs : list value).
+| VInt (z : Z) | VNil | VT | VSym (x : string) | VList (vs : list value)
+| VVals (vs : list value).   (* a slip.Values object: what floor, values, ... return *)
 
 (* error outcomes are explicit: condition classes of slip plus the model's own "not in the fragment" *)
 (* EOther: any other condition or a host fault observed on the implementation; M and S never produce it *)
 Inductive err := EUnbound | EUndefined | ETooMany | EType | EBadForm | EOther.
 Inductive res := Val (v : value) | Err (e : err) | OutOfFuel.
 
-Inductive bi := BPlus | BMinus | BLt | BList | BEmit | BProgn | BIf.
+Inductive bi := BPlus | BMinus | BLt | BList | BEmit | BProgn | BIf | BFloor | BValues | BCase.
 Definition bi_eqb (a b : bi) : bool :=
   match a, b with
-  | BPlus, BPlus | BMinus, BMinus | BLt, BLt | BList, BList | BEmit, BEmit | BProgn, BProgn | BIf, BIf => true
+  | BPlus, BPlus | BMinus, BMinus | BLt, BLt | BList, BList | BEmit, BEmit | BProgn, BProgn | BIf, BIf
+  | BFloor, BFloor | BValues, BValues | BCase, BCase => true
   | _, _ => false
   end.
 Definition builtin_of (f : string) : option bi :=
@@ -49,7 +51,10 @@ Definition builtin_of (f : string) : option bi :=
   if String.eqb f "list" then Some BList else
   if String.eqb f "emit" then Some BEmit else
   if String.eqb f "progn" then Some BProgn else
-  if String.eqb f "if" then Some BIf else None.
+  if String.eqb f "if" then Some BIf else
+  if String.eqb f "floor" then Some BFloor else
+  if String.eqb f "values" then Some BValues else
+  if String.eqb f "case" then Some BCase else None.
 
 Fixpoint slookup {A} (k : string) (l : list (string * A)) : option A :=
   match l with [] => None | (k', v) :: r => if String.eqb k k' then Some v else slookup k r end.
@@ -83,6 +88,14 @@ Definition apply_bi (b : bi) (vs : list value) (o : list value) : res * list val
   | BEmit => match vs with [v] => (Val v, o ++ [v]) | _ => (Err EBadForm, o) end
   | BProgn => (Val (last vs VNil), o)
   | BIf => (Err EBadForm, o)   (* `if` never gets evaluated arguments (SkipEval) *)
+  (* two values: quotient and remainder; only a positive divisor is in the fragment *)
+  | BFloor => (match vs with
+               | [VInt a; VInt b] => if Z.ltb 0 b then Val (VVals [VInt (a / b); VInt (a mod b)]) else Err EBadForm
+               | [VInt a] => Val (VVals [VInt a; VInt 0])
+               | [_; _] | [_] => Err EType
+               | _ => Err EBadForm end, o)
+  | BValues => (Val (VVals vs), o)
+  | BCase => (Err EBadForm, o)   (* only the key of `case` is an evaluated argument; see eval_case *)
   end.
 
 (* ---- state ---------------------------------------------------------------------------------- *)
@@ -156,6 +169,30 @@ Definition truthy (v : value) : bool := match v with VNil => false | _ => true e
 Fixpoint bind (ps : list string) (vs : list value) : env :=
   match ps, vs with p :: ps', v :: vs' => (p, v) :: bind ps' vs' | _, _ => [] end.
 
+(* Function.Eval 145-147: an evaluated argument that is a Values object is replaced by its first value
+   (nil when there is none) *)
+Definition first_val (v : value) : value :=
+  match v with VVals [] => VNil | VVals (x :: _) => x | _ => v end.
+(* Symbol.Eval / the reader: nil and t are constants; everything else is looked up in the scope chain *)
+Definition sym_value (en : env) (x : string) : res :=
+  if String.eqb x "nil" then Val VNil else if String.eqb x "t" then Val VT else
+  match slookup x en with Some v => Val v | None => Err EUnbound end.
+
+(* pkg/cl/case.go: clauses (k form...) | ((k1 k2 ..) form...) | (t form...) last; integer keys only *)
+Definition key_matches (key : value) (k : sexp) : bool :=
+  match k, key with SInt z, VInt z' => Z.eqb z z' | _, _ => false end.
+Fixpoint select_clause (key : value) (clauses : list sexp) : option (list sexp) :=
+  match clauses with
+  | [] => Some []
+  | SList _ (k :: forms) :: rest =>
+      match k with
+      | SList _ ks => if existsb (key_matches key) ks then Some forms else select_clause key rest
+      | SSym x => if String.eqb x "t" then (match rest with [] => Some forms | _ => None end) else None
+      | SInt _ => if key_matches key k then Some forms else select_clause key rest
+      end
+  | _ => None
+  end.
+
 Inductive ares := AVals (vs : list value) | AStop (r : res).
 
 Section WithEval.
@@ -170,7 +207,7 @@ Section WithEval.
             match ev st1 en a with
             | (Val v, st2) =>
                 match eval_args st2 en rest with
-                | (AVals vs, st3) => (AVals (v :: vs), st3)
+                | (AVals vs, st3) => (AVals (first_val v :: vs), st3)
                 | r => r
                 end
             | (r, st2) => (AStop r, st2)
@@ -182,6 +219,32 @@ Section WithEval.
     match forms with
     | [] => (Val lastv, st)
     | f :: rest => match ev st en f with (Val v, st1) => eval_body st1 en rest v | r => r end
+    end.
+  (* EvalArg applied to the forms of a selected `case` clause: the clause list itself is the argument
+     slice, so a converted form is stored at once (as in the argument loop), and Values are not collapsed *)
+  Fixpoint eval_seq (st : state) (en : env) (forms : list sexp) (lastv : value) : res * state :=
+    match forms with
+    | [] => (Val lastv, st)
+    | f :: rest =>
+        match premark st f with
+        | None => (Err EUndefined, st)
+        | Some st1 => match ev st1 en f with (Val v, st2) => eval_seq st2 en rest v | r => r end
+        end
+    end.
+  (* `case`: SkipEval {false, true}: the key is an ordinary argument, the clauses are not evaluated *)
+  Definition eval_case (st : state) (en : env) (args : list sexp) : res * state :=
+    match args with
+    | [] => (Err EBadForm, st)
+    | k :: clauses =>
+        match eval_args st en [k] with
+        | (AVals [key], st1) =>
+            match select_clause key clauses with
+            | None => (Err EBadForm, st1)
+            | Some forms => eval_seq st1 en forms VNil
+            end
+        | (AVals _, st1) => (Err EBadForm, st1)
+        | (AStop r, st1) => (r, st1)
+        end
     end.
   (* pkg/cl/if.go *)
   Definition eval_if (st : state) (en : env) (args : list sexp) : res * state :=
@@ -226,11 +289,12 @@ Fixpoint evalM (n : nat) (st : state) (en : env) (e : sexp) : res * state :=
   | S n' =>
       match e with
       | SInt z => (Val (VInt z), st)
-      | SSym x => (match slookup x en with Some v => Val v | None => Err EUnbound end, st)
+      | SSym x => (sym_value en x, st)
       | SList id (SSym f :: args) =>
           match wrapper st id f with
           | WUndef => (Err EUndefined, st)
           | WOk (CB BIf) => eval_if (evalM n') st en args
+          | WOk (CB BCase) => eval_case (evalM n') st en args
           | WOk (CB b) =>
               match eval_args (evalM n') st en args with
               | (AVals vs, st1) => let (r, o) := apply_bi b vs (out st1) in (r, set_out st1 o)
@@ -247,7 +311,9 @@ Fixpoint evalM (n : nat) (st : state) (en : env) (e : sexp) : res * state :=
   end.
 
 (* ---- compilation ---------------------------------------------------------------------------- *)
-Definition is_strict (c : callee) : bool := match c with CB BIf => false | _ => true end.
+(* CompileArgs: is argument number i of this function evaluated (SkipEval false at i)? *)
+Definition strict_at (c : callee) (i : nat) : bool :=
+  match c with CB BIf => false | CB BCase => Nat.eqb i 0 | _ => true end.
 (* CompileList 342-363: an unknown name gets a placeholder Lambda registered in lambdas and funcs *)
 Definition resolve_or_place (st : state) (f : string) : callee * state :=
   match resolve st f with
@@ -267,13 +333,13 @@ Fixpoint compile_list (st : state) (e : sexp) : state :=
   | SList id (SSym f :: args) =>
       let (c, st1) := resolve_or_place st f in
       let st2 := set_mark st1 id c in
-      if is_strict c then
-        (fix go (st : state) (l : list sexp) : state :=
-           match l with
-           | [] => st
-           | a :: l' => go (match a with SList _ _ => if marked st a then st else compile_list st a | _ => st end) l'
-           end) st2 args
-      else st2
+      (fix go (st : state) (l : list sexp) (i : nat) : state :=
+         match l with
+         | [] => st
+         | a :: l' => go (if strict_at c i
+                          then match a with SList _ _ => if marked st a then st else compile_list st a | _ => st end
+                          else st) l' (S i)
+         end) st2 args 0
   | _ => st
   end.
 Definition compile_slot (st : state) (e : sexp) : state :=
